@@ -3,12 +3,14 @@
 SPECIFICATION Spec
 CONSTANTS
   Rule = "nested"
+  SubRule = "mro"
   Mutant = "none"
   Optimized = FALSE
   Groups <- DefaultGroups
   Emit = FALSE
 INVARIANT RouteEq
 INVARIANT ReturnsSelf
+INVARIANT NestedDecorated
 INVARIANT InheritedUntouched
 INVARIANT AliasUntouched
 INVARIANT ClassIdempotent
